@@ -13,7 +13,9 @@ LOG=/tmp/seedverify/$NAME.log; : > $LOG
 demo_is_lib=0
 if grep -q "Append\|append" $SRC/demo.rs && grep -q "cargo test --offline --lib" $SRC/demo.rs; then demo_is_lib=1; fi
 place_demo() {
-  if [ $demo_is_lib = 1 ]; then
+  if [ $demo_is_lib = 1 ] && grep -q "src/test.rs" $SRC/demo.rs; then
+    cat $SRC/demo.rs >> src/test.rs
+  elif [ $demo_is_lib = 1 ]; then
     # append the demo as a new test module at the end of src/server.rs
     python3 - "$SRC/demo.rs" <<'PY'
 import sys,re
